@@ -4,7 +4,7 @@ from .common import generic_run, FinalDbMonitor, launched_instances
 PID = 'C07'
 ENGINE = 'E1'
 LEVEL = 'exploration'
-RULE = ('One case = generated workflow with several recurrences of different steps/offsets, triggers with negative and positive offsets landing off-sequence, before the initial and after the final point, half of them with a stop point option. Every pool addition and every launch is checked against the model point sets. Distinct = distinct (program, schedule digest); non-trivial = some instance was pooled on demand.')
+RULE = ('One case = generated workflow with several recurrences of different steps/offsets, triggers with negative and positive offsets landing off-sequence, before the initial and after the final point, half of them with a stop point option, a third with a (never firing) suicide trigger written in a section other than its target's. Every pool addition and every launch is checked against the model point sets. Distinct = distinct (program, schedule digest); non-trivial = some instance was pooled on demand.')
 ASSUMPTIONS = [
     'jobs, polls, submissions, message transport and the clock are simulated',
     'reference model / invariants cover the generated workflow sub-language',
@@ -26,6 +26,35 @@ KNOBS = {'p_offset': 0.5, 'p_future': 0.12, 'n_sections': (2, 3),
 def prog_hook(prog, rng):
     if rng.random() < 0.5 and prog.fcp - prog.icp >= 2:
         prog.stop = rng.randint(prog.icp, prog.fcp - 1)
+    # a third of the cases: a suicide trigger written in a section other
+    # than the target's own (it must not give the target that section's
+    # recurrence). It hangs on :submit-fail of a task whose submissions
+    # never fail in this workload, so it never fires and the model need
+    # not know about it.  (separate stream)
+    import random
+    from ..gen import atoms
+    r2 = random.Random(repr(rng.getstate()[1][:4]))
+    if r2.random() >= 0.33 or len(prog.sections) < 2:
+        return
+    used = {a.task for s in prog.sections for e, _t in s.lines
+            if e is not None for a in atoms(e)
+            if a.output in ('submit-failed', 'submitted')}
+    cands = []
+    for s in prog.sections:
+        here = {t for _e, tg in s.lines for t in tg}
+        for c in sorted(here - used):
+            if prog.tasks[c].submit_retries:
+                continue
+            for b in sorted(set(prog.tasks) - here):
+                in_s = any(b == a.task and a.kind == 'rel' and a.off == 0
+                           for e, _t in s.lines if e is not None
+                           for a in atoms(e))
+                if not in_s and b != c:
+                    cands.append((s, c, b))
+    if cands:
+        s, c, b = cands[r2.randrange(len(cands))]
+        s.raw_lines.append(f'{c}:submit-fail? => !{b}')
+        prog.suicide_line = (s.heading, c, b)
 
 
 def run(params):
